@@ -478,9 +478,18 @@ func addSat(a, b int64) (int64, bool) {
 	return c, true
 }
 
+// rangeNesting bounds the mutual recursion rangeAtD -> guards -> applyCond ->
+// linearOf / symbolic bounds -> rangeAtD, whose depth counters restart.
+var rangeNesting int
+
 func rangeAtD(v ssa.Value, b *ssa.BasicBlock, ptrBits, depth int) ival {
 	tr := typeRange(v.Type(), ptrBits)
 	r := tr
+	rangeNesting++
+	defer func() { rangeNesting-- }()
+	if rangeNesting > 24 {
+		return r
+	}
 	if depth <= 5 {
 		switch x := v.(type) {
 		case *ssa.Const:
@@ -770,7 +779,70 @@ func valueRange(v ssa.Value, ptrBits, depth int) ival {
 	return rangeAtD(v, nil, ptrBits, depth)
 }
 
+// helperCompare: cond is a call of a small repository predicate whose body is
+// `return param <op> constant` (a guard hoisted into a helper): returns the
+// equivalent comparison on the call's argument.
+func helperCompare(cond ssa.Value) (ssa.Value, token.Token, ssa.Value, bool) {
+	cl, ok := cond.(*ssa.Call)
+	if !ok {
+		return nil, 0, nil, false
+	}
+	f := cl.Call.StaticCallee()
+	if f == nil || len(f.Blocks) != 1 || !strings.HasPrefix(funcPkgPath(f), modPath) {
+		return nil, 0, nil, false
+	}
+	ret, ok := f.Blocks[0].Instrs[len(f.Blocks[0].Instrs)-1].(*ssa.Return)
+	if !ok || len(ret.Results) != 1 {
+		return nil, 0, nil, false
+	}
+	bo, ok := ret.Results[0].(*ssa.BinOp)
+	if !ok {
+		return nil, 0, nil, false
+	}
+	for _, pr := range [][2]ssa.Value{{bo.X, bo.Y}, {bo.Y, bo.X}} {
+		p, isP := stripChangeOnly(pr[0]).(*ssa.Parameter)
+		k, isK := pr[1].(*ssa.Const)
+		if !isP || !isK {
+			continue
+		}
+		for i, q := range f.Params {
+			if q == p && i < len(cl.Call.Args) {
+				op := bo.Op
+				if pr[0] == bo.Y {
+					op = flipOp(op)
+				}
+				return cl.Call.Args[i], op, k, true
+			}
+		}
+	}
+	return nil, 0, nil, false
+}
+
 func applyCond(r *ival, v ssa.Value, cond ssa.Value, truth bool, ptrBits int) {
+	if x, op, k, ok := helperCompare(cond); ok && exprEq(x, v) {
+		if kk, isInt := constInt64(k); isInt {
+			if !truth {
+				op = negOp(op)
+			}
+			switch op {
+			case token.LSS:
+				r.meet(ival{lo: negInf, hi: kk - 1})
+			case token.LEQ:
+				r.meet(ival{lo: negInf, hi: kk})
+			case token.GTR:
+				r.meet(ival{lo: kk + 1, hi: posInf})
+			case token.GEQ:
+				r.meet(ival{lo: kk, hi: posInf})
+			case token.EQL:
+				r.meet(ival{lo: kk, hi: kk})
+			case token.NEQ:
+				if kk == 0 {
+					r.notZero = true
+				}
+			}
+		}
+		return
+	}
 	switch c := cond.(type) {
 	case *ssa.UnOp:
 		if c.Op == token.NOT {
